@@ -160,9 +160,16 @@ impl SignatureConverter<'_> {
             ImplReceiverKind::SelfRef | ImplReceiverKind::DynamicImpl => {
                 self.gen_self_receiver(span, reference)
             }
-            ImplReceiverKind::StaticImpl => {
-                self.gen_impl_receiver(span, reference.and_then(|(_, lifetime)| lifetime))
-            }
+            ImplReceiverKind::StaticImpl => match reference {
+                Some((_, lifetime)) => self.gen_impl_receiver(span, lifetime),
+                // a by-value dependency takes the `Impl<T>` by value, as the method of the trait does
+                None => {
+                    let entrait = &self.crate_idents.entrait;
+                    syn::parse_quote! {
+                        __impl: ::#entrait::Impl<EntraitT>
+                    }
+                }
+            },
         }
     }
 
